@@ -368,6 +368,26 @@ class JakesSampleGenerator(FadingSampleGenerator):
         # Generate first sample
         self.generate_more_samples()
 
+    def __getstate__(self) -> Any:
+        """
+        State used to pickle and to copy the object.
+
+        When no `RS` was given `self.RS` is the `numpy.random` module
+        (standing for the global RandomState), which can neither be pickled
+        nor deep-copied. It is stored as None and put back by
+        `__setstate__`.
+        """
+        state = self.__dict__.copy()
+        if state.get('RS') is np.random:
+            state['RS'] = None
+        return state
+
+    def __setstate__(self, state: Any) -> None:
+        """Restore the state saved by `__getstate__`."""
+        self.__dict__.update(state)
+        if self.__dict__.get('RS') is None:
+            self.RS = np.random
+
     @property
     def shape(self) -> Optional[Shape]:
         """
